@@ -43,10 +43,16 @@ L == INSTANCE RetryLoop WITH
         NRuns <- NDeliver(tid),
         RunGaps <- IF Is("deliver") THEN {Cur.gap} ELSE {}
 
+\* with attempt hooks the delivery style matters from the start: it is the style of the
+\* trace's first delivery
+FirstMode(i) ==
+    LET ds == {x \in 1..Len(Traces[i].ev) : Traces[i].ev[x].e = "deliver"} IN
+    IF ds = {} THEN "exec" ELSE Traces[i].ev[CHOOSE x \in ds : \A y \in ds : x <= y].mode
+
 Init == /\ tid \in 1..NTraces
         /\ l = 1
         /\ m = Mon!MInit
-        /\ s = L!SInit(Cfg(tid))
+        /\ s = IF Cfg(tid).hooks THEN L!SInitM(Cfg(tid), FirstMode(tid)) ELSE L!SInit(Cfg(tid))
         /\ conf = 0
 
 Step ==
